@@ -730,6 +730,7 @@ theorem flowStatsReply_gen (xid : UInt32) (mpFlags : UInt16) (tableId : UInt8) (
       (by simp; omega)
       (by
         simp only [h1, Res.bind_ok, hrec, hrlen, if_neg hne, hltot, Res.pure_eq, List.nil_append]
+        rw [if_neg (by decide)]
         congr 2
         omega)
       (by show 16 < 64 + mb.length + ib.length; omega),
@@ -956,8 +957,9 @@ example : parse 0 (Slice.exact (hdr 19 128 3 ++ be16 4 ++ be16 0 ++ zeros 4 ++ (
   portStatsReply_rejected 3 0 _ (by simp) 0 _ (Slice.exact_wf _) (Sw.exact_bytes _)
 
 /-- COUNTEREXAMPLE (known): a queue-stats reply (multipart type 5) with one OpenFlow 1.3 record (40 bytes: port_no 4,
-    queue_id 4, tx_bytes, tx_packets, tx_errors, duration_sec, duration_nsec) is REJECTED: the decoder reads a
-    16-bit port and the queue id from offset 2, reports 32 bytes and then decodes the remaining 8 bytes as another record -/
+    queue_id 4, tx_bytes, tx_packets, tx_errors, duration_sec, duration_nsec) is REJECTED: the decoder reads the
+    OpenFlow 1.0 layout (16-bit port, 2 pad bytes, queue id at offset 4, three counters at 8, 16, 24), reports 32 bytes
+    and then decodes the remaining 8 bytes as another record, whose first counter lies beyond the frame -/
 theorem queueStatsReply_rejected (xid : UInt32) (flags : UInt16) (record : Bytes) (hrec : record.length = 40)
     (depth : Nat) (s : Slice) (hwf : s.WF)
     (hb : s.bytes = hdr 19 56 xid ++ be16 5 ++ be16 flags ++ zeros 4 ++ record) :
